@@ -47,6 +47,23 @@ def check(ctx: Ctx) -> str:
         if True in d and False in d:
             ctx.check(d[True] == d[False], f"same:{hash(key) % 10000}", "compiler:CodeGenerator.visit_Template", "defer_init changes more than the environment default", "the module generated with defer_init must equal the normal module except for the environment default argument", "src/jinja2/compiler.py")
     ctx.floor("visit_Template skeletons", n, 100)
+    # no other emitting method may look at defer_init: the bodies of a precompiled module and
+    # of a source-compiled one are the same code (in particular `environment` is never rebound
+    # from the render context - a parent given as a Template object of another environment
+    # must keep running with its own filters, tests and loader)
+    allres = get_paths(ctx)
+    nall = 0
+    for entry, items in sorted(allres.items()):
+        nall += 1
+        dep = sorted({k for p, _ in items for k in p.decisions if "defer_init" in k})
+        if entry == "visit_Template":
+            continue
+        ctx.check(not dep, f"defer-free:{entry}", f"compiler:CodeGenerator.{entry}", f"emission depends on {dep}",
+                  f"{entry} emits different code when defer_init is set ({dep}): precompiled templates then run code that source-compiled templates do not", "src/jinja2/compiler.py")
+        rebinding = [ln.strip() for _, sk in items if not sk.error for ln in sk.text.splitlines() if ln.strip().startswith("environment = ")]
+        ctx.check(not rebinding, f"env-rebound:{entry}", f"compiler:CodeGenerator.{entry}", f"emits `{rebinding[0] if rebinding else ''}`",
+                  f"{entry} emits `{rebinding[0] if rebinding else ''}`: generated code must use the environment its module was created for (definition-time default or module global), not one taken from the render context", "src/jinja2/compiler.py")
+    ctx.floor("emitting methods scanned for defer_init", nall, 60)
 
     ctx.rule("R2", "compile_templates compiles each source with raw=True, defer_init=True and stores it under ModuleLoader.get_module_filename(name); ModuleLoader.load looks the module up with get_template_key(name)")
     ct = repo.func("environment:Environment.compile_templates")
